@@ -53,9 +53,10 @@ def parseUTy : Nat → String → Option UTy
 
 def bytesOf (s : String) : Bytes := s.toUTF8.toList
 
+/-- `<mod>.<name>`, split at the first `.` (identity names may contain dots, the generated module names do not) -/
 def parseIdent (s : String) : Option Ident.Ident :=
   match s.splitOn "." with
-  | [m, n] => some ⟨bytesOf m, bytesOf n⟩
+  | m :: n :: r => some ⟨bytesOf m, bytesOf (".".intercalate (n :: r))⟩
   | _ => none
 
 def parseIdents (s : String) : Option (List Ident.Ident) :=
